@@ -54,6 +54,11 @@ def _mark(node, flags, counter):
     for c in node["children"]:
         if c["kind"] in ("schema", "configtype", "schemalist"):
             c = _mark(c, flags, counter)
+            if c["kind"] == "schemalist":  # the list field itself may be marked sensitive, too
+                f = flags[counter[0] % len(flags)]
+                counter[0] += 1
+                if f is not None and counter[0] % 3 == 0:
+                    c = dict(c, sensitive=f)
         elif c["kind"] not in ("virtual", "method"):
             f = flags[counter[0] % len(flags)]
             counter[0] += 1
